@@ -5,7 +5,7 @@
 P=$1; K=$2; shift 2; CHECKS=${@:-$P}
 SRC=/tmp/seed/${P}_out/$K
 WT=/tmp/vs/${P}_$K
-OUT=/tmp/vs/${P}_$K.result
+OUT=/tmp/vs/${P}_$K.result${SKIP_TESTS:+2}
 mkdir -p /tmp/vs; rm -rf $WT; git -C /repo worktree prune
 git -C /repo worktree add -q $WT HEAD || exit 2
 cd $WT
@@ -15,7 +15,7 @@ PYTHONPATH=$WT /venv/bin/python $SRC/demo.py > /tmp/vs/${P}_$K.demo0 2>&1; echo 
 git apply $SRC/patch.diff && echo "patch_applies=1" || echo "patch_applies=0"
 git diff --stat | tail -1
 PYTHONPATH=$WT /venv/bin/python $SRC/demo.py > /tmp/vs/${P}_$K.demo1 2>&1; echo "demo_mutant_exit=$?"
-PYTHONPATH=$WT /venv/bin/python -m pytest -q -p no:cacheprovider --timeout=900 -W ignore tests 2>&1 | grep -E "passed|failed" | tail -1
+if [ -z "$SKIP_TESTS" ]; then PYTHONPATH=$WT /venv/bin/python -m pytest -q -p no:cacheprovider --timeout=900 -W ignore tests 2>&1 | grep -E "passed|failed" | tail -1; else echo "(pytest skipped: already confirmed)"; fi
 for c in $CHECKS; do
   (cd /verif && OPTILAND_REPO=$WT ./check $c 2>&1 | grep -E "VIOLATION|^$c (ok|FAIL)" | cut -c1-220)
 done
